@@ -197,11 +197,14 @@ impl Report {
             }
         }
         // replay files
-        let _ = std::fs::create_dir_all(format!("{VERIF_DIR}/replays"));
+        // TCMC_OUT_DIR redirects evidence and replay files (experiments, seed trials); registered
+        // commands never set it
+        let out_dir = std::env::var("TCMC_OUT_DIR").unwrap_or_else(|_| VERIF_DIR.to_string());
+        let _ = std::fs::create_dir_all(format!("{out_dir}/replays"));
         let mut lines = vec![];
         for v in &new_violations {
             let path = format!(
-                "{VERIF_DIR}/replays/{}-{:016x}.json",
+                "{out_dir}/replays/{}-{:016x}.json",
                 self.property,
                 h64(&v.signature)
             );
@@ -234,9 +237,9 @@ impl Report {
             "wall_s": self.elapsed(),
             "violations": new_violations.len(),
         });
-        let _ = std::fs::create_dir_all(format!("{VERIF_DIR}/evidence"));
+        let _ = std::fs::create_dir_all(format!("{out_dir}/evidence"));
         std::fs::write(
-            format!("{VERIF_DIR}/evidence/{}.json", self.property),
+            format!("{out_dir}/evidence/{}.json", self.property),
             serde_json::to_string_pretty(&ev).unwrap(),
         )
         .expect("cannot write evidence file");
@@ -272,6 +275,16 @@ thread_local! {
     pub static LAST_PANIC: std::cell::RefCell<Option<(String, String)>> = const { std::cell::RefCell::new(None) };
 }
 
+/// Where the library under test was compiled from: /repo, or the scratch worktree of an isolated
+/// seed trial (tools/try_seed_iso.sh sets TCMC_SUBJECT_DIR).
+pub fn subject_dir() -> String {
+    let mut d = std::env::var("TCMC_SUBJECT_DIR").unwrap_or_else(|_| "/repo".to_string());
+    if !d.ends_with('/') {
+        d.push('/');
+    }
+    d
+}
+
 /// Run `f`; a panic raised inside the library under test (location under /repo/) becomes
 /// `Err("panic: ...")`, any other panic (harness, dependencies) continues to unwind.
 pub fn catch_subject_panic<T>(f: impl FnOnce() -> T) -> Result<T, String> {
@@ -281,7 +294,7 @@ pub fn catch_subject_panic<T>(f: impl FnOnce() -> T) -> Result<T, String> {
         Err(p) => {
             let last = LAST_PANIC.with(|c| c.borrow().clone());
             match last {
-                Some((loc, msg)) if loc.starts_with("/repo/") => Err(format!("panic: the library panicked at {loc}: {}", msg.lines().last().unwrap_or(""))),
+                Some((loc, msg)) if loc.starts_with(&subject_dir()) => Err(format!("panic: the library panicked at {loc}: {}", msg.lines().last().unwrap_or(""))),
                 _ => std::panic::resume_unwind(p),
             }
         }
